@@ -46,7 +46,9 @@ RULE = ("workload A: a case = (existing SocksPort lines as FakeTor reports them 
         "whose view diverged from Tor (9 preludes) before the first stream_via/dns_resolve/dns_resolve_ptr/"
         "_default_socks_endpoint/web_agent. workload B: a case = (host, port, sequence of connect outcomes: "
         "success | one of 8 ConnectError classes | 2 non-ConnectError failures | TCP success followed by a SOCKS "
-        "error reply 1..8 or a drop before/after the method reply).")
+        "error reply 1..8 or a drop before/after the method reply). Two further TorConfig histories per configuration: SocksPort "
+        "at a default that Tor lists in config/defaults (from boot / after a bare-key CONF_CHANGED on top of the configuration), "
+        "and the configuration arriving by CONF_CHANGED while the bootstrap's GETCONF __SocksPort is outstanding.")
 ASSUMPTIONS = [
     "GETCONF SocksPort answers with Tor's spelling 'SocksPort', one line per entry verbatim, bare key when unset; "
     "GETCONF __SocksPort of an unset option answers the bare key (control-spec 3.3)",
@@ -90,6 +92,14 @@ ASSUMPTIONS = [
     "(FakeTor store + CONF_CHANGED to us), then Tor refuses our SETCONF; the following calls are judged against what "
     "FakeTor has then. The refused window call itself is not judged",
     "an API Deferred still pending at quiescence is counted (unresolved), not judged",
+    "announced default: a Tor may list SocksPort line(s) in GETINFO config/defaults; while the option is at that default "
+    "(GETCONF answers the bare key, control-spec 3.3; from the start, or after another controller's RESETCONF reported by a "
+    "CONF_CHANGED with the bare key) those lines are the entries Tor has and told the controller: the TorConfig methods "
+    "(the only code path that reads config/defaults) must use / re-list them; the unset-leniency (re-list nothing or "
+    "9050) does not apply there. Entry points that never read config/defaults are not generated for this class",
+    "bootstrap race: SocksPort is unset when TorConfig bootstraps and another controller sets it between Tor's answers to "
+    "GETCONF SocksPort and GETCONF __SocksPort (the CONF_CHANGED reaches us before the second answer); the following "
+    "calls are judged against FakeTor's store. Lines that would need quoting in the event are not generated",
 ]
 TRUSTED_BASE = ["vf.faketor.core.FakeTor + vf.faketor.sockstor.SocksStore (SocksPort family, 513 on malformed lines)",
                 "vf.refs.kvline", "vf.faketor.sockstor.FakeReactor", "Twisted client endpoints"]
@@ -110,6 +120,7 @@ FLOORS = {
               "fallback_attempts_checked": 60, "fallback_outcomes_compared": 30,
               "fallback_socks_failures_compared": 80, "fallback_slow_successes_judged": 40, "reach:txtorcon.controller:Tor._default_socks_endpoint": 400,
               "overlap_histories_judged": 200, "overlap_setconfs_judged": 250, "refused_setconfs_seen": 150, "window_histories_steps_judged": 120, "staged_edit_steps_judged": 150,
+              "announced_default_steps_judged": 150, "bootstrap_race_steps_judged": 25,
               "reach:txtorcon.endpoints:_create_socks_endpoint": 400,
               "reach:txtorcon.endpoints:TorClientEndpoint.connect": 90,
               "reach:txtorcon.torconfig:TorConfig.create_socks_endpoint": 150,
@@ -118,6 +129,7 @@ FLOORS = {
                  "endpoint_targets_compared": 10000, "fallback_sequences_judged": 250,
                  "fallback_attempts_checked": 450, "fallback_outcomes_compared": 200,
                  "fallback_socks_failures_compared": 800, "overlap_histories_judged": 20000,
+                 "announced_default_steps_judged": 150, "bootstrap_race_steps_judged": 25,
                  "reach:txtorcon.endpoints:_create_socks_endpoint": 8000,
                  "reach:txtorcon.endpoints:TorClientEndpoint.connect": 1500},
 }
@@ -387,6 +399,52 @@ def _run_window(win, cfg, tor, aud, link, reactor):
     return "refused"
 
 
+class _AnnouncedDefaultStore(sockstor.SocksStore):
+    """a Tor whose GETINFO config/defaults lists SocksPort line(s) D: while the option is at its default
+    (GETCONF answers the bare key, control-spec 3.3: 'set to a default value semantically different from an empty
+    string') the listeners Tor has are D, and that is what Tor told the controller"""
+
+    def socks_entries(self):
+        got = sockstor.SocksStore.socks_entries(self)
+        return got if got else list(self.defaults.get("SocksPort", []))
+
+
+def _make_tor_for(case):
+    d = case.get("defaults")
+    if not d:
+        return sockstor.make_tor(case.get("socks"), case.get("under"))
+    store = _AnnouncedDefaultStore(None if d["when"] == "boot" else case.get("socks"), None)
+    store.defaults["SocksPort"] = list(d["lines"])
+    return core.FakeTor(conf=store)
+
+
+def _reset_to_default(tor, link, reactor):
+    """another controller: RESETCONF SocksPort -> the option is back at its default, CONF_CHANGED carries the bare key"""
+    tor.conf.values["SocksPort"] = []
+    tor.conf.values["__SocksPort"] = []
+    sent = "CONF_CHANGED" in tor.subscribed
+    if sent:
+        tor.outbox += R.encode(650, [("mid", "CONF_CHANGED"), ("mid", "SocksPort"), ("end", "OK")])
+    _settle(link, reactor)
+    return "reset-to-default:" + ("conf-changed-delivered" if sent else "not-subscribed")
+
+
+def _arm_boot_race(tor, lines, fired):
+    """while TorConfig bootstraps: between the answer to GETCONF SocksPort (unset) and the answer to GETCONF
+    __SocksPort another controller sets SocksPort=<lines>; Tor sends CONF_CHANGED to us before that answer"""
+    def racing(rest):
+        if rest.strip().lower() == "__socksport" and not fired:
+            fired.append(1)
+            tor.conf.values["SocksPort"] = list(lines)
+            tor.conf.values["__SocksPort"] = []
+            if "CONF_CHANGED" in tor.subscribed:
+                fired.append("delivered")
+                tor.outbox += R.encode(650, [("mid", "CONF_CHANGED")] + [("mid", "SocksPort=" + v) for v in lines] +
+                                       [("end", "OK")])
+        return tor.cmd_GETCONF(rest)
+    tor.handlers["GETCONF"] = racing
+
+
 def run_steps(case):
     """execute one case; -> list of per-step observations"""
     import txtorcon
@@ -395,11 +453,14 @@ def run_steps(case):
 
     _reset_singletons()
     api = case["api"]
-    tor = sockstor.make_tor(case.get("socks"), case.get("under"))
+    tor = _make_tor_for(case)
     tor.emit_conf_changed = bool(case.get("conf_changed"))
     proto, tor, link = core.connected_protocol(tor)
     reactor = sockstor.FakeReactor(free_ports=list(case.get("free", [45011, 45012, 45013])))
     aud = audit.Auditor(wire.LClock())
+    race_fired = []
+    if case.get("bootrace"):
+        _arm_boot_race(tor, case["bootrace"]["lines"], race_fired)
     for code in case.get("reject", []):
         # fault injection: Tor refuses the next SETCONF (nothing is changed then)
         tor.script("SETCONF", (code, [("end", REJECT_TEXT[code])]))
@@ -412,6 +473,14 @@ def run_steps(case):
             boot_problem = o.describe()
         else:
             cfg = o.value
+    history_note = None
+    if case.get("bootrace"):
+        tor.handlers.pop("GETCONF", None)
+        history_note = "boot-race:" + ("conf-changed-before-answer" if "delivered" in race_fired else
+                                       ("not-subscribed" if race_fired else "getconf-not-asked"))
+    if case.get("defaults") and cfg is not None:
+        history_note = "at-default-from-boot" if case["defaults"]["when"] == "boot" else \
+            _reset_to_default(tor, link, reactor)
     torobj = None
     if api in ("tor_default", "stream_via", "dns_resolve", "dns_resolve_ptr", "web_agent"):
         torobj = tctl.Tor(reactor, proto)
@@ -533,6 +602,7 @@ def run_steps(case):
         step["prelude_note"] = prelude_note
         step["window_note"] = window_note
         step["staged_note"] = staged_note
+        step["history_note"] = history_note
         step["E_after"] = tor.conf.socks_entries()
         step["others_after"] = tor.conf.snapshot_others()
         step["listened"] = [(p.number, p.interface, p.open) for p in reactor.listening[l0:]]
@@ -578,6 +648,14 @@ def judge_step(case, step, nstep, rec, V):
     if step.get("window_note"):
         rec.count("window_histories_steps_judged")
         rec.seen("window_notes", step["window_note"])
+    if step.get("history_note"):
+        rec.seen("history_notes", step["history_note"])
+        if case.get("defaults"):
+            rec.count("announced_default_steps_judged")
+        elif step["history_note"] == "boot-race:conf-changed-before-answer":
+            rec.count("bootstrap_race_steps_judged")
+        else:
+            rec.count("bootstrap_race_not_produced")
 
     writes = []
     for l in step["lines"]:
@@ -604,6 +682,13 @@ def judge_step(case, step, nstep, rec, V):
         if fam == "torobj":
             k = (case.get("prelude") or {}).get("kind", "none")
             return None if k == "none" else "config-view-diverged:" + k
+        if fam == "torconfig" and case.get("defaults"):
+            # Tor's config/defaults lists SocksPort; the option is at that default (from the start, or put back
+            # by another controller: CONF_CHANGED with the bare key)
+            return "socksport-at-default-listed-in-config-defaults:" + \
+                ("from-boot" if case["defaults"]["when"] == "boot" else "after-conf-changed-bare-key")
+        if fam == "torconfig" and case.get("bootrace"):
+            return "conf-changed-while-bootstrap-getconf-outstanding"
         if fam == "torconfig" and case.get("staged"):
             # the application had edited the TorConfig object without save() when the call was made
             so = case["staged"]["opt"]
@@ -1326,6 +1411,54 @@ def window_cells(cfg, tier, idx, base, free):
     return out
 
 
+ANNOUNCED_DEFAULTS = [["9050"], ["9050 IsolateDestAddr"], ["127.0.0.1:9050", "unix:/run/tor/default.sock WorldWritable"],
+                      ["9150 IPv6Traffic PreferIPv6"], ["unix:/run/tor/default.sock"]]
+
+
+def announced_default_cells(cfg, tier, idx, base, free):
+    """Tor lists SocksPort line(s) in GETINFO config/defaults and the option is at that default: from the start,
+    or after another controller's RESETCONF (CONF_CHANGED with the bare key) on top of this configuration"""
+    if cfg["under"]:
+        return []
+    D = ANNOUNCED_DEFAULTS[idx % len(ANNOUNCED_DEFAULTS)]
+    P = entry_info(D[0])["first"]
+    whens = ["reset"] if cfg["socks"] else ["boot"]
+    if cfg["socks"] and idx % 7 == 0:
+        whens.append("boot")
+    follows = [("cfg_create", ["9999"]), ("cfg_create", [P]), ("cfg_sync", [P]), ("cfg_create", [None]),
+               ("cfg_create", ["unix:/tmp/new.sock", P]), ("cfg_create", ["9997 IsolateDestAddr", "9999"]),
+               ("cfg_sync", [None])]
+    out = []
+    for wh in whens:
+        if tier == "quick" and cfg["socks"]:
+            sel = [follows[0], follows[1 + idx % 6], follows[1 + (idx + 3) % 6]]
+        else:
+            sel = follows
+        for n, (api, steps) in enumerate(sel):
+            out.append(dict(base, api=api, steps=steps, free=free, conf_changed=bool((idx + n) % 2),
+                            defaults={"lines": D, "when": wh}))
+    return out
+
+
+def boot_race_cells(cfg, tier, idx, base, free):
+    """SocksPort unset when TorConfig starts to bootstrap; another controller sets it to this configuration's lines
+    while GETCONF __SocksPort is outstanding (CONF_CHANGED arrives before the answer)"""
+    lines = cfg["socks"]
+    if cfg["under"] or not lines or any(("\t" in l or "  " in l or '"' in l) for l in lines):
+        return []          # (CONF_CHANGED carries values unquoted: lines that need quoting are not generated)
+    if tier == "quick" and idx % 3:
+        return []
+    infos = [entry_info(l) for l in lines]
+    present = [i["first"] for i in infos if i["kind"] == "usable"]
+    follows = [("cfg_create", ["9999"]), ("cfg_create", ["unix:/tmp/new.sock", "9999"])]
+    if present:
+        follows += [("cfg_create", [present[0]]), ("cfg_sync", [present[-1]]), ("cfg_create", [present[-1], "9998"])]
+    if tier == "quick":
+        follows = [follows[0], follows[(1 + idx) % len(follows)]]
+    return [dict(base, socks=None, api=api, steps=steps, free=free, conf_changed=bool((idx + n) % 2),
+                 bootrace={"lines": list(lines)}) for n, (api, steps) in enumerate(follows)]
+
+
 def cells_for(cfg, tier, idx, cidx=None):
     """all cases (dicts) for one configuration"""
     out = []
@@ -1353,6 +1486,8 @@ def cells_for(cfg, tier, idx, cidx=None):
     out.extend(refusal_cells(cfg, tier, idx if cidx is None else cidx, base, free))
     out.extend(window_cells(cfg, tier, idx if cidx is None else cidx, base, free))
     out.extend(staged_cells(cfg, tier, idx if cidx is None else cidx, base, free))
+    out.extend(announced_default_cells(cfg, tier, idx if cidx is None else cidx, base, free))
+    out.extend(boot_race_cells(cfg, tier, idx if cidx is None else cidx, base, free))
     # (selection by the configuration's own index, not the seed-shifted one: same shapes for every seed)
     out.extend(overlap_cells(cfg, tier, idx if cidx is None else cidx, base, free))
     # histories of two calls
